@@ -21,6 +21,8 @@ def histories(rnd, count, nops, maxsize):
             if r < 0.30:
                 n = rnd.choice([0, 1, 1, 2, 3, size // 2, size, size + 1, rnd.randint(0, size + 1)])
                 sc.append('add %d %s' % (n, ' '.join(str(rnd.randint(0, 255)) for _ in range(n))))
+            elif r < 0.33:
+                sc.append('addself %d %d' % (rnd.randint(0, 300), rnd.randint(0, 300)))       # appended from the buffer's own filled region
             elif r < 0.50:
                 sc.append('consume %d' % rnd.choice([0, 1, 1, 2, 3, size // 2, size + 1, rnd.randint(0, size + 1)]))
             elif r < 0.65:
